@@ -9,7 +9,7 @@ int_t g_mi_n, g_mi_annz; superlumt_options_t *g_mi_opt; SuperMatrix *g_mi_L, *g_
 SuperMatrix in_A, in_L, in_U; NCPformat in_Astore; superlumt_options_t in_o; pxgstrf_shared_t in_sh; Gstat_t in_Gstat; int_t in_info;
 int_t in_perm_c[CAP], in_perm_r[CAP];
 int_t in_ipr[CAP], in_ipc[CAP], in_xprune[CAP], in_ispruned[CAP], in_map[CAP+1]; pxgstrf_relax_t in_relax[CAP+2]; p@p@gstrf_threadarg_t in_targ[NP];
-int_t in_dyn, in_preset; float in_meminit_ret;
+int_t in_dyn, in_preset, g_nzlumax_at_preset; float in_meminit_ret;
 /* ---- executable contracts of the callees ---- */
 int_t *intMalloc(int_t n) { g_n_intmalloc++; return g_n_intmalloc == 1 ? in_ipr : g_n_intmalloc == 2 ? in_ipc : in_xprune; }
 int_t *intCalloc(int_t n) { __CPROVER_array_set(in_ispruned, (int_t)0); return in_ispruned; }
@@ -20,7 +20,7 @@ void ifill(int_t *a, int_t alen, int_t ival) { g_ifill_calls++; g_ifill_ptr = a;
 void pxgstrf_relax_snode(const int_t n, superlumt_options_t *o, pxgstrf_relax_t *r) { LOG(g_at_relax); }
 int ParallelInit(int_t n, pxgstrf_relax_t *r, superlumt_options_t *o, pxgstrf_shared_t *s) { LOG(g_at_parinit); return 0; }
 int_t @p@PresetMap(const int_t n, SuperMatrix *A, pxgstrf_relax_t *r, superlumt_options_t *o, GlobalLU_t *Glu) {
-  LOG(g_at_preset); g_glu = Glu;
+  LOG(g_at_preset); g_glu = Glu; g_nzlumax_at_preset = Glu->nzlumax;   /* what the static Glu held when this call started (thread_init does not write it before) */
   __CPROVER_assert(Glu == in_sh.Glu, "PresetMap receives the Glu that was published in pxgstrf_shared");
   __CPROVER_assert(Glu->nsuper == -1 && Glu->nextl == 0 && Glu->nextu == 0 && Glu->nextlu == 0, "Glu counters are reset before the slot map is built");
   Glu->map_in_sup = in_map; Glu->dynamic_snode_bound = in_dyn;
@@ -31,7 +31,11 @@ float p@p@gstrf_MemInit(int_t n, int_t annz, superlumt_options_t *o, SuperMatrix
   __CPROVER_assert(Glu == g_glu && Glu == in_sh.Glu, "MemInit receives the same static Glu");
   /* C18: the fields MemInit (refact == NO) reads are written by this very call, whatever the static held before */
   __CPROVER_assert(Glu->dynamic_snode_bound == in_dyn && Glu->map_in_sup == in_map, "MemInit reads dynamic_snode_bound / map_in_sup written by this call");
+#if REFACT
+  __CPROVER_assert(Glu->nzlumax == g_nzlumax_at_preset, "MemInit (refactorization) reads the LUSUP bound kept from the first factorization, not this call's preset size");
+#else
   __CPROVER_assert(Glu->nzlumax == in_preset, "MemInit reads nzlumax = the preset bound computed by this call");
+#endif
   __CPROVER_assert(Glu->nsuper == -1 && Glu->nextl == 0 && Glu->nextu == 0 && Glu->nextlu == 0, "Glu counters still reset when MemInit runs");
   return in_meminit_ret;
 }
